@@ -22,9 +22,9 @@ type Taint struct {
 	// SliceHighBreaks: x[a:b] with an explicit upper bound does not propagate (used for "unconsumed remainder" aliases).
 	SliceHighBreaks bool
 	Tainted         map[ssa.Value]bool
-	fields  map[fieldKey]bool // struct fields that may hold a tainted value
-	cells   map[ssa.Value]bool // addresses (allocs, …) into which a tainted value was stored
-	why     map[ssa.Value]ssa.Value
+	fields          map[fieldKey]bool  // struct fields that may hold a tainted value
+	cells           map[ssa.Value]bool // addresses (allocs, …) into which a tainted value was stored
+	why             map[ssa.Value]ssa.Value
 }
 
 type fieldKey struct {
